@@ -23,7 +23,12 @@ def canon(text):
     argvs = vlib.sd_split_many([l.split("=", 1)[1].encode() for _, l in ex]) if ex else []
     for (i, l), a in zip(ex, argvs):
         lines[i] = (l.split("=", 1)[0], vlib.canon_argv(a))
-    # SourcePath depends on where the file was placed: compare its basename only
+    # SourcePath depends on where the file was placed: compare its basename only; relative paths in values are resolved against the
+    # unit's own directory, which is part of the placement: that directory is replaced by a token wherever it appears
+    udir = [os.path.dirname(l.split("=", 1)[1]) for l in lines if isinstance(l, str) and l.startswith("SourcePath=")]
+    if udir and udir[0] not in ("", "/"):
+        sub = lambda x: x.replace(udir[0], "<UNITDIR>") if isinstance(x, str) else x
+        lines = [(l[0], [sub(a) for a in l[1]]) if isinstance(l, tuple) else sub(l) if not l.startswith("SourcePath=") else l for l in lines]
     return [(("SourcePath", os.path.basename(l.split("=", 1)[1])) if isinstance(l, str) and l.startswith("SourcePath=") else l) for l in lines]
 
 
@@ -49,7 +54,7 @@ def place(rng, files, root, ndirs):
 
 def run(ctx):
     ctx.rule = ("a base set S of 2-6 valid units of all types (with references inside S) and an extra set E of 1-5 files (valid units, and broken ones: syntax error, no section, unknown key, "
-                "missing image, dangling reference, bad escape, invalid UTF-8, bad value, a directory named like a unit), names disjoint, nothing in S referring to E and no container of E naming a pod of S; "
+                "missing image, dangling reference, bad escape, invalid UTF-8, bad value, a directory named like a unit), names disjoint, nothing in S referring to E and no valid container of E naming a pod of S (failing ones may); "
                 "S alone and S+E each placed over 1-3 search directories with nested subdirectories in random creation order; compared service by service; non-trivial = E contains at least one broken file; "
                 "distinct = distinct (S, E)")
     rng = ctx.rng
@@ -71,12 +76,17 @@ def run(ctx):
                 r = rng.random()
                 if r < 0.35:
                     typ = rng.choice(list(docs.TYPES))
-                    E["e%d.%s" % (j, typ)] = gen_conv.gen_unit(rng, typ, 0.3)[0]
+                    # service names of the extra units are kept apart from those of the base set (a collision makes two units share one service file)
+                    E["e%d.%s" % (j, typ)] = re.sub(r"(?m)^ServiceName=(.*)$", lambda m: "ServiceName=%s-e%d" % (m.group(1), j), gen_conv.gen_unit(rng, typ, 0.3)[0])
                 elif r < 0.92:
                     kind = rng.choice(list(BROKEN))
                     E["x%d.container" % j] = BROKEN[kind]; broken.append("x%d.container" % j)
                 else:
                     E["dir%d.container" % j] = None; broken.append("dir%d.container" % j)
+            if "pd.pod" in S and rng.random() < 0.5:
+                # a file that names a pod of the base set but fails conversion (at the first check, or after every handler has run): the pod does not reference it
+                kind = rng.choice(["Rootfs=/also\n", "Volume=ghost.volume:/data\n", "ExposeHostPort=http\n", "Group=g\n", "Network=ghost.network\n", "PodmanArgs=\\q\n", "[Service]\nType=forking\n"])
+                E["xm.container"] = "[Container]\nImage=img\nPod=pd.pod\n" + kind; broken.append("xm.container")
             r1, r2 = box.path("%d_a" % i), box.path("%d_b" % i)
             os.makedirs(r1); os.makedirs(r2)
             d1 = place(rng, S, r1, rng.randint(1, 3))
@@ -98,7 +108,9 @@ def run(ctx):
                     if name not in s2:
                         bad = "service %s of the base set disappears when unrelated files are added" % name
                     elif canon(text) != canon(s2[name]):
-                        bad = "service %s of the base set changes when unrelated files are added" % name
+                        a, b = canon(text), canon(s2[name])
+                        d = [(x, y) for x, y in zip(a, b) if x != y][:2] or [("length", len(a), len(b))]
+                        bad = "service %s of the base set changes when unrelated files are added: %s" % (name, d)
             if not bad:
                 errt = err2.decode("utf-8", "surrogateescape")
                 if (rc2 != 0) != bool(broken):
